@@ -1027,4 +1027,406 @@ theorem exBuiltSeq_built : Sequence.ApiBuilt exBuiltSeq :=
 example : (exBuiltSeq.forge true true false).toOption.isSome = true ∧ exBuiltSeq.prepareForOutputting.toOption.isSome = true := by
   constructor <;> decide +kernel
 
+/-! ## G11 additions: the marker lift through `Sequence.forge`, delays disabled -/
+
+/-- **what "the markers of the delayed channel" means** (the conclusion of `delayed_forge_markers`,
+    named so that it can be stated at every level): `f` is the undelayed forged channel of
+    blueprint `b`, `f'` the delayed one; both marker arrays of `f'` have `f.N + M` samples, and
+    sample `k` is ON iff `k` lies in the *unmoved* window of an absolute-time marker, or `k ≥ D`
+    and `k − D` lies in the window of a segment-bound marker of the undelayed blueprint
+    (the window *moved by `D` samples*). -/
+def DelayedMarkers (b : BP) (sr : ℚ) (f f' : Forged) (D M : ℕ) : Prop :=
+  f'.m1.length = f.N + M ∧ f'.m2.length = f.N + M ∧
+  (∀ k (hk : k < f'.m1.length), f'.m1[k] = 1 ↔
+    (∃ m ∈ b.marker1, inWindow k (window f.N sr m) = true) ∨
+    (∃ m ∈ segMarks sr (·.m1) b.segs (starts (f.blocks.map Blk.len) 0),
+      D ≤ k ∧ inWindow (k - D) (window f.N sr m) = true)) ∧
+  (∀ k (hk : k < f'.m2.length), f'.m2[k] = 1 ↔
+    (∃ m ∈ b.marker2, inWindow k (window f.N sr m) = true) ∨
+    (∃ m ∈ segMarks sr (·.m2) b.segs (starts (f.blocks.map Blk.len) 0),
+      D ≤ k ∧ inWindow (k - D) (window f.N sr m) = true))
+
+/-- all marker windows of the undelayed channel lie on the undelayed waveform (hypothesis of the
+    marker lift, see the counterexample after `delayed_forge_markers`) -/
+def MarkersInside (b : BP) (sr : ℚ) (f : Forged) : Prop :=
+  (∀ m ∈ b.marker1 ++ segMarks sr (·.m1) b.segs (starts (f.blocks.map Blk.len) 0), MarkInside f.N sr m) ∧
+  (∀ m ∈ b.marker2 ++ segMarks sr (·.m2) b.segs (starts (f.blocks.map Blk.len) 0), MarkInside f.N sr m)
+
+/-- `delayed_forge_markers` in terms of `DelayedMarkers` -/
+theorem delayed_forge_markers_named (b : BP) (sr delay maxdelay : ℚ) (f : Forged) (D M : ℕ)
+    (hsr : b.SR = .num sr) (hf : forgeBP b = .ok f) (hsr0 : 0 < sr) (hD : delay * sr = D) (hM : maxdelay * sr = M)
+    (hle : D ≤ M) (hfront : D = 0 ∨ 2 ≤ D) (hback : M - D = 0 ∨ 2 ≤ M - D) (hin : MarkersInside b sr f) :
+    ∃ f', forgeBP (delayBP b delay maxdelay).st = .ok f' ∧ DelayedMarkers b sr f f' D M :=
+  delayed_forge_markers b sr delay maxdelay f D M hsr hf hsr0 hD hM hle hfront hback _ rfl hin.1 hin.2
+
+/-- **a blueprint channel through `forge`'s delay step, identified**: after `delayElement`, channel
+    `k` of `getArrays` - same channel id, same flags - is the forged *delayed blueprint*
+    `delayBP b ds[k] (max ds)` with `ds[k]` the delay declared for that channel's id. -/
+theorem delayed_element_bp_forged (s : Sequence) (e e' : Element) (ds : List ℚ)
+    (hds : e.channels.mapM s.delayOf = .ok ds) (hde : s.delayElement e = .ok e')
+    (k : ℕ) (hk : k < e.chans.length) (hkd : k < ds.length) (b : BP) (hb : (e.chans[k]).2.data = .bp b)
+    (t : Bool) (arr : Dict Chan ChOut) (harr : e'.getArrays t = .ok arr) (h : k < arr.length) :
+    ∃ f', forgeBP (delayBP b ds[k] (maxR ds)).st = .ok f' ∧
+      arr[k] = ((e.chans[k]).1, ChOut.forged f' (e.chans[k]).2.flags t) := by
+  obtain ⟨herr, hst, _⟩ := delay_step_facts s e e' ds hds hde
+  obtain ⟨m, sr', _, _, hlen, hl, hall⟩ := g4_applyDelays_getElem e ds herr
+  subst hst
+  obtain ⟨h1, h2⟩ := hall k hk (by omega) hkd
+  obtain ⟨hla, hga⟩ := g4_getArrays_getElem _ t arr harr
+  obtain ⟨g1, g2⟩ := hga k (by omega) h
+  have hdat := (g4_dEnt_data _ _ _ _ _ h2).1 b hb
+  have hfl := g4_dEnt_flags _ _ _ _ _ h2
+  obtain ⟨_, _, o3, _⟩ := g4_chanOut_spec t _ _ g2
+  obtain ⟨f', hf', ho⟩ := o3 _ hdat
+  refine ⟨f', hf', ?_⟩
+  have : arr[k] = ((arr[k]).1, (arr[k]).2) := rfl
+  rw [this, g1, h1, ho, hfl]
+
+/-- the sample rate of a blueprint channel of a validated element is the element's -/
+theorem bp_channel_SR (e : Element) (sr : ℚ) (hsr : e.getSR = .ok (.num sr)) (k : ℕ) (hk : k < e.chans.length)
+    (b : BP) (hb : (e.chans[k]).2.data = .bp b) : b.SR = .num sr := by
+  unfold Element.getSR at hsr
+  cases hv : e.validate with
+  | error er => rw [hv] at hsr; simp [Except.map] at hsr
+  | ok m =>
+    rw [hv] at hsr
+    simp only [Except.map, Except.ok.injEq] at hsr
+    have := (g4_validate_SR e m hv).2 _ (List.getElem_mem hk)
+    rw [chanSR_bp _ b hb, hsr] at this
+    exact Except.ok.inj this
+
+/-- `D ≤ M` for the whole-sample delay of one channel and the maximum delay -/
+theorem whole_delay_le (ds : List ℚ) (sr : ℚ) (hsr0 : 0 < sr) (k : ℕ) (hkd : k < ds.length) (D M : ℕ)
+    (hD : ds[k] * sr = D) (hM : maxR ds * sr = M) : D ≤ M := by
+  have h1 : ds[k] ≤ maxR ds := Paths.le_maxR ds _ (List.getElem_mem hkd)
+  have : ds[k] * sr ≤ maxR ds * sr := mul_le_mul_of_nonneg_right h1 hsr0.le
+  rw [hD, hM] at this
+  exact_mod_cast this
+
+/-- **the marker lift, one element through the delay step**: for a blueprint channel `k` of an
+    element whose delay step succeeds (whole-sample delays `D = ds[k]·SR ≤ M = max(ds)·SR`, every
+    padding absent or at least two samples, all marker windows on the undelayed waveform), channel
+    `k` of the delayed element's `getArrays` is a forged channel `f'` - same id, same flags - whose
+    m1/m2 are ON exactly on the absolute-time windows *unmoved* and the segment-bound windows
+    *moved by `D`* (`DelayedMarkers`). -/
+theorem delayed_element_bp_markers (s : Sequence) (e e' : Element) (ds : List ℚ)
+    (hds : e.channels.mapM s.delayOf = .ok ds) (hde : s.delayElement e = .ok e')
+    (sr : ℚ) (hsr : e.getSR = .ok (.num sr)) (hsr0 : 0 < sr)
+    (k : ℕ) (hk : k < e.chans.length) (hkd : k < ds.length) (b : BP) (hb : (e.chans[k]).2.data = .bp b)
+    (f : Forged) (hf : forgeBP b = .ok f) (D M : ℕ) (hD : ds[k] * sr = D) (hM : maxR ds * sr = M)
+    (hfront : D = 0 ∨ 2 ≤ D) (hback : M - D = 0 ∨ 2 ≤ M - D) (hin : MarkersInside b sr f)
+    (t : Bool) (arr : Dict Chan ChOut) (harr : e'.getArrays t = .ok arr) (h : k < arr.length) :
+    ∃ f', arr[k] = ((e.chans[k]).1, ChOut.forged f' (e.chans[k]).2.flags t) ∧ DelayedMarkers b sr f f' D M := by
+  obtain ⟨f', hf', ha⟩ := delayed_element_bp_forged s e e' ds hds hde k hk hkd b hb t arr harr h
+  obtain ⟨f'', hf'', hm⟩ := delayed_forge_markers_named b sr ds[k] (maxR ds) f D M
+    (bp_channel_SR e sr hsr k hk b hb) hf hsr0 hD hM (whole_delay_le ds sr hsr0 k hkd D M hD hM) hfront hback hin
+  rw [hf'] at hf''
+  cases hf''
+  exact ⟨f', ha, hm⟩
+
+/-- **the marker lift through `Sequence.forge`, element position**: in `forge(apply_delays=True)`
+    the forged channel `k` of element position `i+1` - the stored element's `k`-th channel, same id
+    and flags, whatever filters and time option - is a forged blueprint channel `f'` with m1/m2 =
+    absolute-time windows unmoved ∪ segment-bound windows moved by `D = delay·SR`
+    (`DelayedMarkers`), and `chMarker` (what both output methods read) delivers exactly those
+    arrays. -/
+theorem forge_delayed_bp_markers (s : Sequence) (fl t : Bool) (out : List (ℕ × ForgedPos))
+    (h : s.forge true fl t = .ok out) (i : ℕ) (hi : i < out.length) (e : Element)
+    (he : Dict.get? s.data ((i + 1 : ℕ) : ℤ) = some (.el e)) (ds : List ℚ) (hds : e.channels.mapM s.delayOf = .ok ds)
+    (sr : ℚ) (hsr : e.getSR = .ok (.num sr)) (hsr0 : 0 < sr)
+    (k : ℕ) (hk : k < e.chans.length) (hkd : k < ds.length) (b : BP) (hb : (e.chans[k]).2.data = .bp b)
+    (f : Forged) (hf : forgeBP b = .ok f) (D M : ℕ) (hD : ds[k] * sr = D) (hM : maxR ds * sr = M)
+    (hfront : D = 0 ∨ 2 ≤ D) (hback : M - D = 0 ∨ 2 ≤ M - D) (hin : MarkersInside b sr f) :
+    ∃ c sq f', out[i] = (i + 1, { sequencing := sq, isSub := false, content := [(1, c, none)] }) ∧
+      DelayedMarkers b sr f f' D M ∧
+      ∃ (hc : k < c.length), (c[k]).1 = (e.chans[k]).1 ∧ (c[k]).2.out = ChOut.forged f' (e.chans[k]).2.flags t ∧
+        Sequence.chMarker (c[k]).2 1 = .ok (f'.m1.map (fun (n : ℕ) => ((n : ℤ) : ℚ))) ∧
+        Sequence.chMarker (c[k]).2 2 = .ok (f'.m2.map (fun (n : ℕ) => ((n : ℤ) : ℚ))) := by
+  obtain ⟨en, hen, hpos⟩ := (Sequence.forge_pos s true fl t out h).2 i hi
+  rw [he] at hen
+  cases hen
+  obtain ⟨e', arr, c, sq, h1, h2, h3, _, h5⟩ := Sequence.forgePos_element s true fl t (i + 1) e _ hpos
+  have hde : s.delayElement e = .ok e' := by simpa [Sequence.delayedEl] using h1
+  obtain ⟨hl3, hw⟩ := Sequence.g4_withFilters_getElem s fl arr c h3
+  obtain ⟨hl1, _⟩ := Sequence.delayedEl_frame s e e' hde
+  obtain ⟨hl2, _⟩ := g4_getArrays_getElem e' t arr h2
+  have ka : k < arr.length := by omega
+  have hc : k < c.length := by omega
+  obtain ⟨f', ha, hm⟩ := delayed_element_bp_markers s e e' ds hds hde sr hsr hsr0 k hk hkd b hb f hf D M hD hM
+    hfront hback hin t arr h2 ka
+  obtain ⟨w1, w2, _, _⟩ := hw k ka hc
+  have ho : (c[k]).2.out = ChOut.forged f' (e.chans[k]).2.flags t := by rw [w2, ha]
+  refine ⟨c, sq, f', h5, hm, hc, by rw [w1, ha], ho, ?_, ?_⟩
+  · simp [Sequence.chMarker, ho]
+  · simp [Sequence.chMarker, ho]
+
+/-- **the marker lift through `Sequence.forge`, inside a subsequence**: content entry `j` of a
+    subsequence position holds, for blueprint channel `k` of the subsequence's element `j+1`
+    (delays looked up in the *parent's* settings by that element's own channel ids), a forged
+    channel whose m1/m2 are again the absolute-time windows unmoved ∪ the segment-bound windows
+    moved by `D`. -/
+theorem forge_delayed_subsequence_bp_markers (s : Sequence) (fl t : Bool) (out : List (ℕ × ForgedPos))
+    (h : s.forge true fl t = .ok out) (i : ℕ) (hi : i < out.length) (sub : SubSeq)
+    (he : Dict.get? s.data ((i + 1 : ℕ) : ℤ) = some (.sub sub)) (j : ℕ) (hj : j < (out[i]).2.content.length)
+    (e : Element) (hge : Dict.get? sub.data ((j + 1 : ℕ) : ℤ) = some e)
+    (ds : List ℚ) (hds : e.channels.mapM s.delayOf = .ok ds)
+    (sr : ℚ) (hsr : e.getSR = .ok (.num sr)) (hsr0 : 0 < sr)
+    (k : ℕ) (hk : k < e.chans.length) (hkd : k < ds.length) (b : BP) (hb : (e.chans[k]).2.data = .bp b)
+    (f : Forged) (hf : forgeBP b = .ok f) (D M : ℕ) (hD : ds[k] * sr = D) (hM : maxR ds * sr = M)
+    (hfront : D = 0 ∨ 2 ≤ D) (hback : M - D = 0 ∨ 2 ≤ M - D) (hin : MarkersInside b sr f) :
+    ∃ c q2 f', (out[i]).2.content[j] = (j + 1, c, some q2) ∧ DelayedMarkers b sr f f' D M ∧
+      ∃ (hc : k < c.length), (c[k]).1 = (e.chans[k]).1 ∧ (c[k]).2.out = ChOut.forged f' (e.chans[k]).2.flags t ∧
+        Sequence.chMarker (c[k]).2 1 = .ok (f'.m1.map (fun (n : ℕ) => ((n : ℤ) : ℚ))) ∧
+        Sequence.chMarker (c[k]).2 2 = .ok (f'.m2.map (fun (n : ℕ) => ((n : ℤ) : ℚ))) := by
+  obtain ⟨e0, e', arr, c, q2, hge0, hde, h2, hcj, hl3, hw⟩ := forge_delayed_subsequence s fl t out h i hi sub he j hj
+  rw [hge] at hge0
+  cases hge0
+  obtain ⟨hl1, _⟩ := Sequence.delayedEl_frame s e e' hde
+  obtain ⟨hl2, _⟩ := g4_getArrays_getElem e' t arr h2
+  have ka : k < arr.length := by omega
+  have hc : k < c.length := by omega
+  obtain ⟨f', ha, hm⟩ := delayed_element_bp_markers s e e' ds hds hde sr hsr hsr0 k hk hkd b hb f hf D M hD hM
+    hfront hback hin t arr h2 ka
+  obtain ⟨w1, w2⟩ := hw k ka hc
+  have ho : (c[k]).2.out = ChOut.forged f' (e.chans[k]).2.flags t := by rw [w2, ha]
+  refine ⟨c, q2, f', hcj, hm, hc, by rw [w1, ha], ho, ?_, ?_⟩
+  · simp [Sequence.chMarker, ho]
+  · simp [Sequence.chMarker, ho]
+
+/-- what `chMarker` reads from a padded raw-array channel -/
+theorem chMarker_padded (c : ChOutF) (a a' : Dict String (List ℚ)) (flg : Option (List ℕ)) (tm : Option (ℕ × ℚ))
+    (pre post : ℕ) (ho : c.out = ChOut.arrays a' flg tm)
+    (hget : ∀ key, Dict.get? a' key = (Dict.get? a key).map (padArr pre post)) (w : ℕ) (xs : List ℚ)
+    (hx : Dict.get? a (if w = 1 then "m1" else "m2") = some xs) :
+    Sequence.chMarker c w = .ok (padArr pre post xs) := by
+  simp only [Sequence.chMarker, ho, hget, hx, Option.map_some]
+
+/-- **raw-array markers through `Sequence.forge`, element position**: for a raw-array channel `k`
+    of element position `i+1`, the marker arrays the output methods read (`chMarker`, arrays 'm1'
+    and 'm2') are the *stored* marker arrays padded by `D = delay·SR` zeros in front and `M − D`
+    zeros behind - exactly like the waveform ('wfm'), so raw-array markers move with the waveform. -/
+theorem forge_delayed_raw_markers (s : Sequence) (fl t : Bool) (out : List (ℕ × ForgedPos))
+    (h : s.forge true fl t = .ok out) (i : ℕ) (hi : i < out.length) (e : Element)
+    (he : Dict.get? s.data ((i + 1 : ℕ) : ℤ) = some (.el e)) (ds : List ℚ) (hds : e.channels.mapM s.delayOf = .ok ds)
+    (sr : ℚ) (hsr : e.getSR = .ok (.num sr)) (hsr0 : 0 < sr)
+    (k : ℕ) (hk : k < e.chans.length) (hkd : k < ds.length) (a : Dict String (List ℚ)) (sv : Val)
+    (ha : (e.chans[k]).2.data = .arr a sv) (D M : ℕ) (hD : ds[k] * sr = D) (hM : maxR ds * sr = M) :
+    ∃ c sq, out[i] = (i + 1, { sequencing := sq, isSub := false, content := [(1, c, none)] }) ∧
+      ∃ (hc : k < c.length), (c[k]).1 = (e.chans[k]).1 ∧
+        (∀ w xs, Dict.get? a (if w = 1 then "m1" else "m2") = some xs →
+          Sequence.chMarker (c[k]).2 w = .ok (padArr D (M - D) xs)) ∧
+        (∀ xs, Dict.get? a "wfm" = some xs →
+          (Sequence.chWave (c[k]).2).map (·.blocks) = .ok [Blk.raw (padArr D (M - D) xs)]) := by
+  obtain ⟨c, sq, h5, hc, a', tm, h6, h7, _, h9⟩ := forge_delayed_raw_channel s fl t out h i hi e he ds hds sr hsr hsr0
+    k hk hkd a sv ha D M hD hM
+  refine ⟨c, sq, h5, hc, h6, fun w xs hx => chMarker_padded _ a a' _ tm D (M - D) h7 h9 w xs hx, fun xs hx => ?_⟩
+  simp only [Sequence.chWave, h7, h9, hx, Option.map_some, Except.map]
+
+/-- **raw-array channels inside a subsequence**: content entry `j` of a subsequence position holds,
+    for raw-array channel `k` of the subsequence's element `j+1`, every stored array (waveform and
+    markers) padded by `D` zeros in front and `M − D` behind; `chMarker` reads the padded marker
+    arrays. -/
+theorem forge_delayed_subsequence_raw_markers (s : Sequence) (fl t : Bool) (out : List (ℕ × ForgedPos))
+    (h : s.forge true fl t = .ok out) (i : ℕ) (hi : i < out.length) (sub : SubSeq)
+    (he : Dict.get? s.data ((i + 1 : ℕ) : ℤ) = some (.sub sub)) (j : ℕ) (hj : j < (out[i]).2.content.length)
+    (e : Element) (hge : Dict.get? sub.data ((j + 1 : ℕ) : ℤ) = some e)
+    (ds : List ℚ) (hds : e.channels.mapM s.delayOf = .ok ds)
+    (sr : ℚ) (hsr : e.getSR = .ok (.num sr)) (hsr0 : 0 < sr)
+    (k : ℕ) (hk : k < e.chans.length) (hkd : k < ds.length) (a : Dict String (List ℚ)) (sv : Val)
+    (ha : (e.chans[k]).2.data = .arr a sv) (D M : ℕ) (hD : ds[k] * sr = D) (hM : maxR ds * sr = M) :
+    ∃ c q2, (out[i]).2.content[j] = (j + 1, c, some q2) ∧
+      ∃ (hc : k < c.length) (a' : Dict String (List ℚ)) (tm : Option (ℕ × ℚ)),
+        (c[k]).1 = (e.chans[k]).1 ∧ (c[k]).2.out = ChOut.arrays a' (e.chans[k]).2.flags tm ∧
+        Dict.keys a' = Dict.keys a ∧ (∀ key, Dict.get? a' key = (Dict.get? a key).map (padArr D (M - D))) ∧
+        (∀ w xs, Dict.get? a (if w = 1 then "m1" else "m2") = some xs →
+          Sequence.chMarker (c[k]).2 w = .ok (padArr D (M - D) xs)) := by
+  obtain ⟨e0, e', arr, c, q2, hge0, hde, h2, hcj, hl3, hw⟩ := forge_delayed_subsequence s fl t out h i hi sub he j hj
+  rw [hge] at hge0
+  cases hge0
+  obtain ⟨hl1, _⟩ := Sequence.delayedEl_frame s e e' hde
+  obtain ⟨hl2, _⟩ := g4_getArrays_getElem e' t arr h2
+  have ka : k < arr.length := by omega
+  have hc : k < c.length := by omega
+  obtain ⟨_, harr⟩ := delayed_element_raw_channel s e e' ds hds hde sr hsr hsr0 k hk hkd a sv ha D M hD hM t
+  obtain ⟨a', tm, h6, h7, h8⟩ := harr arr h2 ka
+  obtain ⟨w1, w2⟩ := hw k ka hc
+  have ho : (c[k]).2.out = ChOut.arrays a' (e.chans[k]).2.flags tm := by rw [w2, h6]
+  exact ⟨c, q2, hcj, hc, a', tm, by rw [w1, h6], ho, h7, h8,
+    fun w xs hx => chMarker_padded _ a a' _ tm D (M - D) ho h8 w xs hx⟩
+
+/-! ### delays disabled: the output is the undelayed one -/
+
+/-- **with delays disabled, an element position of `forge` is the stored element's own
+    `getArrays`**: `forge(apply_delays=False, f, t)` delivers at element position `i+1` one content
+    entry whose channels are - id by id, in order - exactly the arrays `e.getArrays t` of the
+    *stored, undelayed* element (only the filter annotation is attached beside them). -/
+theorem forge_undelayed_element (s : Sequence) (fl t : Bool) (out : List (ℕ × ForgedPos))
+    (h : s.forge false fl t = .ok out) (i : ℕ) (hi : i < out.length) (e : Element)
+    (he : Dict.get? s.data ((i + 1 : ℕ) : ℤ) = some (.el e)) :
+    ∃ arr c sq, e.getArrays t = .ok arr ∧
+      out[i] = (i + 1, { sequencing := sq, isSub := false, content := [(1, c, none)] }) ∧
+      c.length = arr.length ∧ c.map (fun x => (x.1, x.2.out)) = arr := by
+  obtain ⟨en, hen, hpos⟩ := (Sequence.forge_pos s false fl t out h).2 i hi
+  rw [he] at hen
+  cases hen
+  obtain ⟨e', arr, c, sq, h1, h2, h3, _, h5⟩ := Sequence.forgePos_element s false fl t (i + 1) e _ hpos
+  have hee : e' = e := by
+    simp only [Sequence.delayedEl, Bool.false_eq_true, if_false, Except.ok.injEq] at h1
+    exact h1.symm
+  subst hee
+  obtain ⟨hl3, hw⟩ := Sequence.g4_withFilters_getElem s fl arr c h3
+  refine ⟨arr, c, sq, h2, h5, hl3, ?_⟩
+  apply List.ext_getElem (by simp [hl3])
+  intro n h1 h2
+  simp only [List.getElem_map]
+  have hn : n < arr.length := h2
+  have hn' : n < c.length := by omega
+  obtain ⟨w1, w2, _, _⟩ := hw n hn hn'
+  rw [w1, w2]
+
+/-- **... and inside a subsequence**: content entry `j` of a subsequence position of
+    `forge(apply_delays=False)` is the `getArrays` of the subsequence's stored element `j+1`. -/
+theorem forge_undelayed_subsequence (s : Sequence) (fl t : Bool) (out : List (ℕ × ForgedPos))
+    (h : s.forge false fl t = .ok out) (i : ℕ) (hi : i < out.length) (sub : SubSeq)
+    (he : Dict.get? s.data ((i + 1 : ℕ) : ℤ) = some (.sub sub)) (j : ℕ) (hj : j < (out[i]).2.content.length) :
+    ∃ e arr c q2, Dict.get? sub.data ((j + 1 : ℕ) : ℤ) = some e ∧ e.getArrays t = .ok arr ∧
+      (out[i]).2.content[j] = (j + 1, c, some q2) ∧ c.length = arr.length ∧
+      c.map (fun x => (x.1, x.2.out)) = arr := by
+  obtain ⟨en, hen, hpos⟩ := (Sequence.forge_pos s false fl t out h).2 i hi
+  rw [he] at hen
+  cases hen
+  obtain ⟨_, _, _, _, _, _, hall⟩ := Sequence.forgePos_sub s false fl t (i + 1) sub _ hpos
+  obtain ⟨e, e', arr, c, q2, hge, h1, h2, h3, _, hcj⟩ := hall j hj
+  have hee : e' = e := by
+    simp only [Sequence.delayedEl, Bool.false_eq_true, if_false, Except.ok.injEq] at h1
+    exact h1.symm
+  subst hee
+  obtain ⟨hl3, hw⟩ := Sequence.g4_withFilters_getElem s fl arr c h3
+  refine ⟨e', arr, c, q2, hge, h2, hcj, hl3, ?_⟩
+  apply List.ext_getElem (by simp [hl3])
+  intro n h1 h2
+  simp only [List.getElem_map]
+  have hn : n < arr.length := h2
+  have hn' : n < c.length := by omega
+  obtain ⟨w1, w2, _, _⟩ := hw n hn hn'
+  rw [w1, w2]
+
+/-- **delays on vs. off, one blueprint channel**: at the same element position, the channel
+    delivered with delays on is the channel delivered with delays off (`f`, the stored blueprint's
+    own forge) with its segment-bound marker windows moved by `D` and its absolute-time windows
+    unmoved - the two `forge` calls compared directly. -/
+theorem forge_on_vs_off_bp_markers (s : Sequence) (fl t : Bool) (on off : List (ℕ × ForgedPos))
+    (hon : s.forge true fl t = .ok on) (hoff : s.forge false fl t = .ok off) (i : ℕ) (hi : i < on.length)
+    (hi' : i < off.length) (e : Element)
+    (he : Dict.get? s.data ((i + 1 : ℕ) : ℤ) = some (.el e)) (ds : List ℚ) (hds : e.channels.mapM s.delayOf = .ok ds)
+    (sr : ℚ) (hsr : e.getSR = .ok (.num sr)) (hsr0 : 0 < sr)
+    (k : ℕ) (hk : k < e.chans.length) (hkd : k < ds.length) (b : BP) (hb : (e.chans[k]).2.data = .bp b)
+    (D M : ℕ) (hD : ds[k] * sr = D) (hM : maxR ds * sr = M)
+    (hfront : D = 0 ∨ 2 ≤ D) (hback : M - D = 0 ∨ 2 ≤ M - D)
+    (hin : ∀ f, forgeBP b = .ok f → MarkersInside b sr f) :
+    ∃ c c' sq f f', off[i] = (i + 1, { sequencing := sq, isSub := false, content := [(1, c, none)] }) ∧
+      on[i] = (i + 1, { sequencing := sq, isSub := false, content := [(1, c', none)] }) ∧
+      ∃ (hc : k < c.length) (hc' : k < c'.length),
+        (c[k]).2.out = ChOut.forged f (e.chans[k]).2.flags t ∧
+        (c'[k]).2.out = ChOut.forged f' (e.chans[k]).2.flags t ∧ DelayedMarkers b sr f f' D M := by
+  obtain ⟨arr, c, sq, harr, hoi, hlc, hmap⟩ := forge_undelayed_element s fl t off hoff i hi' e he
+  obtain ⟨hla, hga⟩ := g4_getArrays_getElem e t arr harr
+  have ka : k < arr.length := by omega
+  have hc : k < c.length := by omega
+  obtain ⟨_, g2⟩ := hga k hk ka
+  obtain ⟨_, _, o3, _⟩ := g4_chanOut_spec t _ _ g2
+  obtain ⟨f, hf, ho⟩ := o3 b hb
+  obtain ⟨c', sq', f', hoi', hm, hc', _, ho', _⟩ := forge_delayed_bp_markers s fl t on hon i hi e he ds hds sr hsr hsr0
+    k hk hkd b hb f hf D M hD hM hfront hback (hin f hf)
+  -- both positions carry the sequence's own sequencing entry
+  obtain ⟨en, hen, hpos⟩ := (Sequence.forge_pos s false fl t off hoff).2 i hi'
+  rw [he] at hen; cases hen
+  obtain ⟨_, _, _, sq0, _, _, _, hs0, h50⟩ := Sequence.forgePos_element s false fl t (i + 1) e _ hpos
+  obtain ⟨en, hen, hpos'⟩ := (Sequence.forge_pos s true fl t on hon).2 i hi
+  rw [he] at hen; cases hen
+  obtain ⟨_, _, _, sq1, _, _, _, hs1, h51⟩ := Sequence.forgePos_element s true fl t (i + 1) e _ hpos'
+  have hsq : sq' = sq := by
+    rw [hoi] at h50
+    rw [hoi'] at h51
+    simp only [Prod.mk.injEq, true_and, ForgedPos.mk.injEq] at h50 h51
+    rw [h50.1, h51.1]
+    rw [hs0] at hs1
+    exact (Option.some.inj hs1).symm
+  subst hsq
+  refine ⟨c, c', sq', f, f', hoi, hoi', hc, hc', ?_, ho', hm⟩
+  have : (c.map (fun x => (x.1, x.2.out)))[k]'(by simpa using hc) = arr[k] := by simp only [hmap]
+  simp only [List.getElem_map] at this
+  have h2 := congrArg Prod.snd this
+  simp only at h2
+  rw [h2, ho]
+
+/-! non-vacuity of the G11 theorems: an element with a marked blueprint channel (`exMarkBP`:
+    segment-bound marker 1 at samples 1,2; absolute marker 1 at samples 6,7) and a raw-array channel
+    with an 'm1' array, at position 1 and inside a subsequence at position 2; channel 1 delayed by
+    2 samples -/
+def exMarkEl : Element :=
+  { chans := [(.int 1, { data := .bp exMarkBP }),
+              (.str "A", { data := .arr [("m1", [1, 1, 0, 0, 0, 0, 0, 0, 0, 1]), ("wfm", List.replicate 10 0)] (.num 10) })] }
+
+def exMarkSeq : Sequence :=
+  { data := [(1, .el exMarkEl),
+             (2, .sub { data := [(1, exMarkEl)], sequencing := [(1, ⟨0, 2, 0, 0, 0⟩)], awgspecs := [("SR", .val (.num 10))] })],
+    sequencing := [(1, ⟨0, 1, 0, 0, 0⟩), (2, ⟨0, 3, 0, 0, 1⟩)],
+    awgspecs := [("SR", .val (.num 10)), ("channel1_delay", .val (.num (1/5)))] }
+
+/-- the hypotheses hold: both forges succeed, delays `[1/5, 0]` (2 and 0 of max 2 samples), the
+    marker windows of `exMarkBP` lie on its 10 samples -/
+example : (exMarkSeq.forge true false false).toOption.isSome = true ∧
+    (exMarkSeq.forge false false false).toOption.isSome = true ∧
+    exMarkEl.channels.mapM exMarkSeq.delayOf = .ok [1/5, 0] ∧ exMarkEl.getSR = .ok (.num 10) ∧
+    ((1 : ℚ) / 5) * 10 = (2 : ℕ) ∧ maxR [1/5, 0] * 10 = (2 : ℕ) ∧ (0 : ℚ) * 10 = (0 : ℕ) := by
+  refine ⟨by decide +kernel, by decide +kernel, by decide +kernel, by decide +kernel, by norm_num,
+    by decide +kernel, by norm_num⟩
+
+example : ∀ f, forgeBP exMarkBP = .ok f → MarkersInside exMarkBP 10 f := by
+  intro f hf
+  have : forgeBP exMarkBP = .ok (assemble exMarkBP 10 [10]) := by decide +kernel
+  rw [this] at hf
+  cases hf
+  constructor <;> decide +kernel
+
+/-- `forge_delayed_bp_markers` and `forge_delayed_subsequence_raw_markers` applied to the example:
+    every hypothesis is discharged -/
+example (out : List (ℕ × ForgedPos)) (h : exMarkSeq.forge true false false = .ok out) :
+    ∃ (hi : 0 < out.length) (c : Dict Chan ChOutF) (sq : SeqSet) (f' : Forged),
+      out[0] = (0 + 1, { sequencing := sq, isSub := false, content := [(1, c, none)] }) ∧
+      DelayedMarkers exMarkBP 10 (assemble exMarkBP 10 [10]) f' 2 2 := by
+  have hl := (Sequence.forge_pos _ _ _ _ out h).1
+  have hi : 0 < out.length := by rw [hl]; decide
+  obtain ⟨c, sq, f', h1, h2, _⟩ := forge_delayed_bp_markers exMarkSeq false false out h 0 hi exMarkEl rfl [1/5, 0]
+    (by decide +kernel) 10 (by decide +kernel) (by norm_num) 0 (by decide) (by decide) exMarkBP rfl
+    (assemble exMarkBP 10 [10]) (by decide +kernel) 2 2 (by norm_num) (by decide +kernel) (Or.inr le_rfl) (Or.inl rfl)
+    ⟨by decide +kernel, by decide +kernel⟩
+  exact ⟨hi, c, sq, f', h1, h2⟩
+
+example (out : List (ℕ × ForgedPos)) (h : exMarkSeq.forge true false false = .ok out) (hi : 1 < out.length)
+    (hj : 0 < (out[1]).2.content.length) :
+    ∃ c q2, (out[1]).2.content[0] = (0 + 1, c, some q2) ∧ ∃ (hc : 1 < c.length),
+      Sequence.chMarker (c[1]).2 1 = .ok (padArr 0 (2 - 0) [1, 1, 0, 0, 0, 0, 0, 0, 0, 1]) := by
+  obtain ⟨c, q2, h1, hc, a', tm, _, _, _, _, hm⟩ := forge_delayed_subsequence_raw_markers exMarkSeq false false out h 1 hi
+    { data := [(1, exMarkEl)], sequencing := [(1, ⟨0, 2, 0, 0, 0⟩)], awgspecs := [("SR", .val (.num 10))] } rfl 0 hj
+    exMarkEl rfl [1/5, 0] (by decide +kernel) 10 (by decide +kernel) (by norm_num) 1 (by decide) (by decide)
+    [("m1", [1, 1, 0, 0, 0, 0, 0, 0, 0, 1]), ("wfm", List.replicate 10 0)] (.num 10) rfl 0 2 (by norm_num)
+    (by decide +kernel)
+  exact ⟨c, q2, h1, hc, hm 1 _ (by decide +kernel)⟩
+
+/-- what comes out: m1 of channel 1 (segment-bound window moved from 1,2 to 3,4; absolute window
+    still 6,7; two samples longer) and m1 of raw channel "A" (padded by 0 in front, 2 behind), at
+    the element position and inside the subsequence; with delays off the stored arrays -/
+example :
+    (exMarkSeq.forge true false false).toOption.map (fun out => out.map (fun p => p.2.content.map (fun c =>
+        c.2.1.map (fun x => (Sequence.chMarker x.2 1).toOption)))) =
+      some [[[some [0, 0, 0, 1, 1, 0, 1, 1, 0, 0, 0, 0], some [1, 1, 0, 0, 0, 0, 0, 0, 0, 1, 0, 0]]],
+            [[some [0, 0, 0, 1, 1, 0, 1, 1, 0, 0, 0, 0], some [1, 1, 0, 0, 0, 0, 0, 0, 0, 1, 0, 0]]]] ∧
+    (exMarkSeq.forge false false false).toOption.map (fun out => out.map (fun p => p.2.content.map (fun c =>
+        c.2.1.map (fun x => (Sequence.chMarker x.2 1).toOption)))) =
+      some [[[some [0, 1, 1, 0, 0, 0, 1, 1, 0, 0], some [1, 1, 0, 0, 0, 0, 0, 0, 0, 1]]],
+            [[some [0, 1, 1, 0, 0, 0, 1, 1, 0, 0], some [1, 1, 0, 0, 0, 0, 0, 0, 0, 1]]]] := by
+  constructor <;> decide +kernel
+
 end BB.C10
